@@ -393,7 +393,7 @@ theorem lctx_general {a : Arch} {ls : Layers} {r : LRuleSpec} (hw : ArchWF a) (h
         simp only [hany]
         exact this
   refine ⟨layerTag ((updateLayerMap mt nodes larch conv).map fun e => (e.1, e.2.map splitDots)),
-    ?_, ?_, ?_, ?_, hmemS, hmemO, ?_, ?_, ?_, ?_, c0.objNe, c0.subjNotObj⟩
+    ?_, ?_, ?_, ?_, hmemS, hmemO, ?_, ?_, ?_, ?_, c0.objNe, c0.subjNotObj, ?_⟩
   · intro n hn
     have := layerOf_correct _ hU hmWF n (hw.nwf n hn)
     rw [hm_eq] at this
@@ -430,12 +430,36 @@ theorem lctx_general {a : Arch} {ls : Layers} {r : LRuleSpec} (hw : ArchWF a) (h
         simp only [hany] at hx'
         exact hx'
     rw [h0] at this; cases this
+  · have := consistent_of_unrelMap _ hU hmWF
+    rw [hm_eq] at this
+    exact this
 
 /-- the layer mapping `LayerRuleMatcher` works with: regex layers the rule mentions are resolved, the others emptied -/
 def ruleLayerMap (mt : Str → Str → Bool) (g : PGraph Str) (larch : LArch) (r : LRuleSpec) : LayerMap :=
   updateLayerMap mt g.nodes larch
     (((larch.getD r.subject ++
         (if r.anything = true then larch.getD r.subject else r.objects.flatMap larch.getD)).filter (·.isRegex)).map (·.id))
+
+theorem ruleLayerMap_eq_ruleMap (mt : Str → Str → Bool) (g : PGraph Str) (larch : LArch) (r : LRuleSpec) :
+    ruleLayerMap mt g larch r = ruleMap mt g larch (larch.getD r.subject)
+      (if r.anything = true then larch.getD r.subject else r.objects.flatMap larch.getD) := rfl
+
+/-- the repaired matcher on a compiled layer rule: if regex conversion and graph queries succeed and the resolved layer
+    mapping assigns some identifier to two different layers, `assert_applies` raises `LayerMismatch` -/
+theorem overlapping_layers_rejected_lemma (mt : Str → Str → Bool) (g : PGraph Str) (larch : LArch) (r : LRuleSpec)
+    (hs : larch.getD r.subject ≠ []) (ho : r.anything = true ∨ r.objects.flatMap larch.getD ≠ [])
+    (hany : r.anything = true → r.verb = .shouldNot)
+    (hdd : r.anything = true → dedupSubjects (larch.getD r.subject) = larch.getD r.subject)
+    (subs objs : List Filter) (q : Option ExplDeps × Option OtherDeps)
+    (h1 : convertFilters mt g.nodes (larch.getD r.subject) = .ok subs)
+    (h2 : convertFilters mt g.nodes
+      (if r.anything = true then larch.getD r.subject else r.objects.flatMap larch.getD) = .ok objs)
+    (h3 : runQueries g (behL r) r.importDir subs objs = .ok q)
+    (hov : (ruleLayerMap mt g larch r).consistent = false) :
+    assertAppliesLayer mt (compileLayerRule larch r) g = .err .layerMismatch := by
+  rw [assertAppliesLayer_compile mt g larch r hs ho hany hdd]
+  rw [ruleLayerMap_eq_ruleMap] at hov
+  exact matchLayerRule_inconsistent mt g larch _ _ _ _ subs objs q h1 h2 h3 hov
 
 /-- on name and regex layers, `assert_applies` is the tail of `matchLayerRule` on the modules of the subject layer and
     of the object layers, with a layer mapping that satisfies the hypotheses of the core lemma -/
@@ -494,7 +518,7 @@ theorem layer_reduce (mt : Str → Str → Bool) (a : Arch) (g : PGraph Str) (hg
     · rw [assertAppliesLayer_compile mt g larch r hFSne (.inr hFOne) hany (fun _ => hdd)]
       unfold ruleLayerMap
       simp only [hanyB, Bool.false_eq_true, if_false]
-      rw [matchLayerRule_eq mt g larch _ _ _ _ _ _ hconvS hconvO]
+      rw [matchLayerRule_eq mt g larch _ _ _ _ _ _ hconvS hconvO c.cons]
   · -- the two `any layer` aliases
     obtain ⟨tag, c⟩ := lctx_general hw hd mt g.nodes larch hres
       (((larch.getD r.subject ++ larch.getD r.subject).filter (·.isRegex)).map (·.id))
@@ -513,7 +537,7 @@ theorem layer_reduce (mt : Str → Str → Bool) (a : Arch) (g : PGraph Str) (hg
     · rw [assertAppliesLayer_compile mt g larch r hFSne (.inl hanyB) hany (fun _ => hdd)]
       unfold ruleLayerMap
       simp only [hanyB, if_true]
-      rw [matchLayerRule_eq mt g larch _ _ _ _ _ _ hconvS hconvS]
+      rw [matchLayerRule_eq mt g larch _ _ _ _ _ _ hconvS hconvS c.cons]
 
 /-- C05 on name and regex layers -/
 theorem layer_verdict_lemma (mt : Str → Str → Bool) (a : Arch) (g : PGraph Str) (hg : GraphOf a g)
